@@ -8,6 +8,7 @@ import (
 
 	"gitlab.com/gomidi/midi/v2"
 	cp "gitlab.com/gomidi/midi/v2/internal/verifh/concpairs"
+	"gitlab.com/gomidi/midi/v2/internal/verifh/disturb"
 	"gitlab.com/gomidi/midi/v2/internal/verifh/engine"
 	"gitlab.com/gomidi/midi/v2/internal/verifh/refsmf"
 	"gitlab.com/gomidi/midi/v2/smf"
@@ -383,6 +384,7 @@ func smpteProduct(part, parts int) {
 				for _, f := range frames {
 					for _, ff := range fr {
 						n++
+						ctx.Eval()
 						m := smf.MetaSMPTE(byte(h), byte(mi), byte(se), byte(f), byte(ff))
 						var g [5]uint8
 						ok := m.GetMetaSMPTEOffsetMsg(&g[0], &g[1], &g[2], &g[3], &g[4])
@@ -399,7 +401,6 @@ func smpteProduct(part, parts int) {
 			}
 		}
 	}
-	ctx.Evals.Add(n)
 	ctx.Add("smpte_tuples", n)
 }
 
@@ -538,6 +539,7 @@ func keys() {
 func tempos(part, parts int) {
 	for u := 1 + part; u <= 0xFFFFFF; u += parts {
 		bpm := 6e7 / float64(u)
+		ctx.Eval()
 		m := smf.MetaTempo(bpm)
 		if len(m) != 6 || m[0] != 0xFF || m[1] != 0x51 || m[2] != 3 {
 			report("layout:MetaTempo", "MetaTempo", bpm, m, "tempo event is not FF 51 03 + 3 bytes")
@@ -553,11 +555,11 @@ func tempos(part, parts int) {
 			report("accessor:MetaTempo", "MetaTempo", bpm, m, fmt.Sprintf("GetMetaTempo gives %v, payload means %v", g, 6e7/float64(p)))
 		}
 	}
-	ctx.Evals.Add(int64((0xFFFFFF - part + parts - 1) / parts))
 }
 
 func main() {
 	ctx = engine.Start("C15", "exploration")
+	disturb.Install(ctx)
 	if ctx.ReplayPath != "" {
 		m := ctx.LoadReplay()
 		if cp.Replay(ctx, m, "meta", concCases()) {
